@@ -139,7 +139,7 @@ func kv(f []string) map[string]string {
 
 // sessExec runs op lines (inside a synctest bubble).
 func sessExec(tr *vh.Transcript, ops []string) {
-	cfg := sessCfg{maxCached: 2, minerUser: "acct.rig7", idle: 10 * time.Minute, cleanTimeout: 2 * time.Minute}
+	cfg := sessCfg{maxCached: 2, minerUser: "acct.rig7", idle: 10 * time.Hour, cleanTimeout: 2 * time.Minute} // idle close is C13's business (its harness uses 20 s); a long session must not run into it
 	var pools []*fakePool
 	var s *session
 	defer func() {
